@@ -241,7 +241,13 @@ def decide(prop, tier, seed, mod, m, wall, single_case=False):
     n_viol += m["n_case_errors"]
 
     reasons = []
-    deciding = getattr(mod, "DECIDING", [])
+    deciding = list(getattr(mod, "DECIDING", []))
+    branches = list(getattr(mod, "BRANCHES", []))
+    if hasattr(mod, "applicable"):
+        # monitors / branches that describe states of the library's PRESENT algorithm (which internal situation a
+        # correctly answered call went through) are required only while that algorithm is in place: the module says
+        # which of them apply to the tree that was observed (reach counters of private helpers)
+        deciding, branches = mod.applicable(deciding, branches, m)
     for name in deciding:
         n = m["judged"].get(name, 0) + m["checks"].get(name, 0)
         if n == 0 and m["notes"].get(f"hook-missing:{name}"):
@@ -250,7 +256,7 @@ def decide(prop, tier, seed, mod, m, wall, single_case=False):
             continue
         if n == 0 and not single_case:
             reasons.append(f"deciding monitor '{name}' never gave a verdict")
-    for b in getattr(mod, "BRANCHES", []):
+    for b in branches:
         if m["reach_branches"].get(b) == 0 and not single_case:
             reasons.append(f"branch '{b}' never reached")
     min_evals = getattr(mod, "MIN_EVALS", {}).get(tier, 10)
